@@ -28,11 +28,11 @@ RULE = (
     "array coming back as float) is not judged here - C05 judges kinds. Persistence of a definition is judged against a pinned list of names."
 )
 TOLERANCES = {"recomputed_rel": 1e-9}
-FLOORS = {"quick": {"law.second-write-to-a-written-node": 2, "law.roundtrip-labelled-state-point": 4, "law.roundtrip-labelled-state-point/layout-differs-from-plain-node": 3, "law.roundtrip": 12, "law.load-twice": 12, "law.idempotent": 6, "law.roundtrip-later-node": 8, "nodes.compared": 3000,
-                    "law.roundtrip/thrz": 1, "history.third-core-with-edge-assemblies": 2, "loaded-tree.parent-links": 10000, "loaded-tree.core-lookups": 1500,
+FLOORS = {"quick": {"workload.blueprints-state-assembly-parameters": 5, "op.assembly-state-after-blueprint-value": 10, "law.second-write-to-a-written-node": 2, "law.roundtrip-labelled-state-point": 4, "law.roundtrip-labelled-state-point/layout-differs-from-plain-node": 3, "law.roundtrip": 12, "law.load-twice": 12, "law.idempotent": 6, "law.roundtrip-later-node": 8, "nodes.compared": 3000,
+                    "law.roundtrip/thrz": 1, "history.third-core-with-edge-assemblies": 1, "loaded-tree.parent-links": 10000, "loaded-tree.core-lookups": 1500,
                     "persistence.definitions-pinned": 3000, "workload.nodefault-column-fully-assigned": 12,
                     "classify.recomputed-judged-against-original": 2500},
-          "thorough": {"law.second-write-to-a-written-node": 40, "law.roundtrip-labelled-state-point": 60, "law.roundtrip-labelled-state-point/layout-differs-from-plain-node": 40, "law.roundtrip": 150, "law.load-twice": 150, "law.idempotent": 60, "law.roundtrip-later-node": 80, "nodes.compared": 60000,
+          "thorough": {"workload.blueprints-state-assembly-parameters": 40, "op.assembly-state-after-blueprint-value": 80, "law.second-write-to-a-written-node": 40, "law.roundtrip-labelled-state-point": 60, "law.roundtrip-labelled-state-point/layout-differs-from-plain-node": 40, "law.roundtrip": 150, "law.load-twice": 150, "law.idempotent": 60, "law.roundtrip-later-node": 80, "nodes.compared": 60000,
                        "law.roundtrip/thrz": 4, "history.third-core-with-edge-assemblies": 8, "loaded-tree.parent-links": 100000, "loaded-tree.core-lookups": 15000,
                        "persistence.definitions-pinned": 5000, "workload.nodefault-column-fully-assigned": 150,
                        "classify.recomputed-judged-against-original": 25000}}
@@ -68,6 +68,13 @@ def run_shard(spec, rec):
             elif spec["kind"] == "generated":
                 sym = rng.choice(["third periodic", "third periodic", "full"])
                 cspec = gen.core_spec(rng, rings=rng.randint(2, 4), symmetry=sym, ndesigns=rng.randint(1, 3), nblocks=rng.randint(1, 4))
+                if rng.random() < .6:
+                    # the blueprints state the optional assembly attributes (nozzle, control-rod elevations); the model moves on from them
+                    for a_ in cspec["assemblies"].values():
+                        a_["nozzleType"] = rng.choice(["Inner", "Outer", "Default"])
+                        a_["crInsertedElevation"], a_["crWithdrawnElevation"] = 0.0, 25.0
+                        a_["crCurrentElevation"] = rng.choice([0.0, 10.0, 25.0])
+                    rec.hit("workload.blueprints-state-assembly-parameters")
                 r, cs, bp, text = gen.build_reactor(cspec, {"trackAssems": True} if rng.random() < .6 else None)
                 w["reactor"] = {"symmetry": sym, "assemblies": len(r.core)}
                 kind = "generated-" + sym.split()[0]
@@ -332,7 +339,9 @@ SKIP_PARAMS = {"serialNum", "flags", "type", "numberDensities", "mult", "volume"
                "area", "mergeWith", "customIsotopicsName", "temperatureInC", "axialExpTargetComponent", "maxAssemNum", "symmetry", "geomType",
                # mirrors of the case settings / blueprints, which the property holds fixed ("loaded with the same settings and blueprints"):
                # Core.processLoading and Database._assignBlueprintsParams re-apply them on load by design
-               "jumpRing", "beta", "betaComponents", "betaDecayConstants", "pressureLossCoeffs", "crCurrentElevation", "crInsertedElevation", "crWithdrawnElevation", "nozzleType", "hotChannelFactors"}
+               # (the assembly parameters a blueprint may state - nozzleType, control-rod elevations, hotChannelFactors - are *state* once the
+               # model runs, a rod moves: the written value is what a load returns, and they are judged like any other parameter)
+               "jumpRing", "beta", "betaComponents", "betaDecayConstants", "pressureLossCoeffs"}
 
 
 def history(rec, rng, r, w):
@@ -363,9 +372,17 @@ def history(rec, rng, r, w):
     groups = classes_of(r)
     nsteps = rng.randint(8, 25)
     for _ in range(nsteps):
-        op = rng.choice(["param", "param", "param", "param-subset", "ndens", "temperature", "rotate-block", "swap", "discharge", "free-coordinate", "core-param", "table-param"])
+        op = rng.choice(["param", "param", "param", "param-subset", "ndens", "temperature", "rotate-block", "swap", "discharge", "free-coordinate", "core-param", "table-param", "assembly-state"])
         try:
-            if op == "table-param":
+            if op == "assembly-state":
+                # a control rod is moved, a nozzle exchanged: parameters a blueprint may have given a first value
+                a_ = rng.choice(list(r.core))
+                a_.p.crCurrentElevation = rng.uniform(0.0, 25.0)
+                if rng.random() < .5:
+                    a_.p.nozzleType = rng.choice(["Inner", "Outer", "Plenum-%d" % rng.randint(0, 9)])
+                rec.hit("op.assembly-state-after-blueprint-value" if a_.p.crInsertedElevation is not None else "op.assembly-state")
+                hist.append("assembly-state")
+            elif op == "table-param":
                 # physics results stored per block as tables (pin x group fluxes, group vectors): per-block shapes differ, some blocks
                 # have none, and the arrays arrive as views / Fortran-ordered data of whatever produced them
                 import numpy as np
